@@ -19,8 +19,10 @@
                     self-dependency)                                               -> [mech_user]
                   - engine.py apply_user_actions (prevent map cleared at the start of EVERY user action,
                     recalculation once at the end of the bundle) and Engine._recompute_step
-                    (dirty rows minus exempt rows, existing rows only)             -> [mech_bundle], [fired]
+                    (dirty rows minus exempt rows, existing rows only)             -> [mech_actions], [fired]
      3. SPEC      ([spec_*]): the property sentence, as lower/upper bounds  must <= fired <= may.
+     4. FLAGS     ([flag_actions], [regular]): the five transitions of the mechanism on which the current source
+                  deviates from the sentence (one root cause each); hypotheses of the _partial theorems.
 
    Scope of the model (what the harness generates): all cell values are ints; formula columns read one plain data
    column of the same row; the trigger column's own schema and configuration do not change during the history;
@@ -300,34 +302,45 @@ Definition unconstrained (g : cfg) (t : tbl) (b : bundle) (r : Z) : bool := may 
                                                                          (BulkAddRecord never calls prevent_recalc)
    fl_lost : a user action starts while some row is dirty AND exempt: the exemption is dropped before the
              recalculation, which only happens at the end of the bundle  (_prevent_recompute_map.clear())
-   fl_stale: a record update writes a column whose edge towards the trigger column is missing because of a
-             schema change earlier in the same bundle                   (edges rebuilt at the end of the bundle)
+   fl_stale: a record update writes a dependency column that was RENAMED earlier in the same bundle: the edge
+             towards the trigger column still names the old column id   (edges rebuilt at the end of the bundle)
+   fl_fstale: a record update writes the source of a formula dependency whose own dependency edges were cleared
+             by a schema change (ALL_ROWS invalidation) earlier in the same bundle, or which was itself renamed
+                                                        (edges re-learned only when the column is recomputed)
    fl_trim : after a user-level update that SUPPLIED a trigger value for row r (column not self-dependent),
              r is dirty and not exempt                   (trim_update_action dropped the unchanged explicit value) *)
-Record flags := { fl_add : bool; fl_lost : bool; fl_stale : bool; fl_trim : bool }.
-Definition no_flags : flags := {| fl_add := false; fl_lost := false; fl_stale := false; fl_trim := false |}.
+Record flags := { fl_add : bool; fl_lost : bool; fl_stale : bool; fl_fstale : bool; fl_trim : bool }.
+Definition no_flags : flags :=
+  {| fl_add := false; fl_lost := false; fl_stale := false; fl_fstale := false; fl_trim := false |}.
 Definition or_flags (a b : flags) : flags :=
   {| fl_add := fl_add a || fl_add b; fl_lost := fl_lost a || fl_lost b;
-     fl_stale := fl_stale a || fl_stale b; fl_trim := fl_trim a || fl_trim b |}.
-Definition any_flag (f : flags) : bool := fl_add f || fl_lost f || fl_stale f || fl_trim f.
+     fl_stale := fl_stale a || fl_stale b; fl_fstale := fl_fstale a || fl_fstale b;
+     fl_trim := fl_trim a || fl_trim b |}.
+Definition any_flag (f : flags) : bool := fl_add f || fl_lost f || fl_stale f || fl_fstale f || fl_trim f.
 
 Definition eff_dirty (m : mech) (r : Z) : bool := dirty m r && negb (prevent m r).
 
-Definition stale_hit (g : cfg) (m : mech) (cols : list Z) (recs : list wrec) : bool :=
+(* ka: look at trigger edges that name a renamed column; kb: look at formula columns whose own edges were
+   cleared (or whose trigger edge names their old id) *)
+Definition stale_hit_k (ka kb : bool) (g : cfg) (m : mech) (cols : list Z) (recs : list wrec) : bool :=
   is_default g && nonnil recs &&
-  existsb (fun c => (memz c (deps g) && stale m c) ||
-                    existsb (fun f => memz f (deps g) && (stale m f || fstale m f)) (readers g c)) cols.
-Definition stale_doc (g : cfg) (m : mech) (d : daction) : bool :=
-  match d with DUpd cols recs => stale_hit g m cols recs | _ => false end.
-Fixpoint stale_docs (g : cfg) (m : mech) (ds : list daction) : bool :=
-  match ds with [] => false | d :: ds' => stale_doc g m d || stale_docs g (mech_doc g m d) ds' end.
-Definition stale_user (g : cfg) (t : tbl) (m : mech) (a : uaction) : bool :=
+  existsb (fun c => (ka && (memz c (deps g) && stale m c)) ||
+                    (kb && existsb (fun f => memz f (deps g) && (stale m f || fstale m f)) (readers g c))) cols.
+Definition stale_doc_k (ka kb : bool) (g : cfg) (m : mech) (d : daction) : bool :=
+  match d with DUpd cols recs => stale_hit_k ka kb g m cols recs | _ => false end.
+Fixpoint stale_docs_k (ka kb : bool) (g : cfg) (m : mech) (ds : list daction) : bool :=
+  match ds with [] => false | d :: ds' => stale_doc_k ka kb g m d || stale_docs_k ka kb g (mech_doc g m d) ds' end.
+Definition stale_user_k (ka kb : bool) (g : cfg) (t : tbl) (m : mech) (a : uaction) : bool :=
   match a with
   | UAdd cols recs =>   (* a self-dependent column was renamed earlier in the bundle: its self edge is missing *)
-      selfdep g && memz trc cols && nonnil recs && negb (existsb (reach g m) (table_cols g))
-  | UUpd cols recs => let cols' := trim_cols t cols recs in stale_hit g m cols' (trim_recs t cols' recs)
-  | UDocs ds => stale_docs g m ds
+      ka && (selfdep g && memz trc cols && nonnil recs && negb (existsb (reach g m) (table_cols g)))
+  | UUpd cols recs => let cols' := trim_cols t cols recs in stale_hit_k ka kb g m cols' (trim_recs t cols' recs)
+  | UDocs ds => stale_docs_k ka kb g m ds
   end.
+Definition stale_hit := stale_hit_k true true.
+Definition stale_doc := stale_doc_k true true.
+Definition stale_docs := stale_docs_k true true.
+Definition stale_user := stale_user_k true true.
 
 Definition dadd_ids (ds : list daction) : list Z :=
   flat_map (fun d => match d with DAdd _ recs => ids recs | _ => [] end) ds.
@@ -354,7 +367,8 @@ Fixpoint flag_actions (g : cfg) (t : tbl) (m : mech) (b : bundle) : flags :=
       let t' := data_user t a in
       or_flags {| fl_add := unprotected t' m' (xadd g a);
                   fl_lost := existsb (fun r => dirty m r && prevent m r) (rows t);
-                  fl_stale := stale_user g t mc a;
+                  fl_stale := stale_user_k true false g t mc a;
+                  fl_fstale := stale_user_k false true g t mc a;
                   fl_trim := unprotected t' m' (xupd g a) |}
                (flag_actions g t' m' b')
   end.
